@@ -15,6 +15,9 @@ CHECKS = {
  "C11": (E2, "runtime monitoring: instrumented roots/expressions record every DSL/Prepare/Validate/Finalize callback of the real eval.RunDSL; phase-barrier automaton + reference topological order + error accounting over the recorded log",
          "Every digraph on <=4 labelled roots (cyclic ones included) x every registration order is run through the real eval engine (exhaustive for that sub-space), plus random 5-6 root cases with dynamic registration and error scripts; the callback log is judged by an independent automaton.",
          "Trusts the instrumented test roots; dependency targets never registered and ReportError from Prepare/Finalize are outside the envelope."),
+ "C12": (E2, "runtime monitoring of DSL evaluation: generated DSL call sequences (every exported dsl function from a go/ast scan of /repo/dsl, misplaced/repeated/ill-typed arguments; 'wild' and grammar-guided 'tidy' programs) interpreted in child processes against the real dsl + eval.RunDSL, panics/stack overflows/timeouts classified from the child's output; dangling-reference mutants (34 classes) of valid base designs must be rejected with an error naming the dangling name",
+         "Each program is a tree of real DSL calls executed by a child interpreter (one batch per child, program logged before it runs); outcome = accepted | errors (non-empty, located) | panic | fatal | timeout. Mutants replace one reference (attribute, scheme, view, error name, ...) of a valid lab design by a name that does not exist.",
+         "Trusts the child interpreter and the go/ast function table; argument shapes outside the table's hints are not generated; a timeout (90 s wall, generous) is reported as nontermination only after a re-run in a fresh child reproduces it."),
  "C13": (E2, "runtime monitoring: generated type graphs (cycles, unions, tags, validations) run through the real expr.Dup/DupAtt/Hash/Equal; copy-mutation classes checked with an independent reflection snapshot walker; reference structural-equality oracle from the documented Hash rules; repeated calls and child-process canaries for termination",
          "All permutations of objects/unions with <=4 members x all flag combinations (exhaustive for that sub-space), random graphs to depth 5 with cycles, 24 copy-mutation classes, each hash repeated in-process; pairs with one known finite difference must hash differently.",
          "Differences on which the Hash doc comment is silent (union type names, user vs result type kind) are counted, not judged; folded vs unfolded presentations are not compared."),
